@@ -223,6 +223,7 @@
 
 (def- held @[])
 (def- fill @[])
+(def- env-syms (sort (filter symbol? (keys root-env))))
 
 (defn- op-s [names i] (put held i (symbol (in names i))) nil)
 (defn- op-k [names i] (put held i (keyword (in names i))) nil)
@@ -287,6 +288,11 @@
   (for j 0 (length fill)
     (unless (= (symbol "c03fill" j) (in fill j))
       (when (< first-lost 0) (set first-lost j))
+      (++ lost)))
+  # ... and so must every symbol the core environment is keyed by (entries that were in the cache long before)
+  (eachp [j s] env-syms
+    (unless (= s (symbol (string s)))
+      (when (< first-lost 0) (set first-lost (+ 1000000 j)))
       (++ lost)))
   (buffer/push out (string lost ":" first-lost))
   (string out))
